@@ -127,6 +127,20 @@ else:
         ck.violation("real RingBuffer/SimpleVector crashes under ASan/UBSan on a capacity-respecting history",
                      {"case": bad_case[0] if bad_case else None, "log_tail": (bad_case[1] if bad_case else out1)[-2500:]})
     else:
+        # emplace forms (harness only; the expected line is computed here): (count, value) packs must reach the (count, value) constructors
+        ecases = [(n, v) for n in (0, 1, 2, 3, 5) for v in (0, 1, 9)]
+        efile = os.path.join(ck.scratch, "emplace.txt"); open(efile, "w").write("".join("emplace %d %d\n" % e for e in ecases))
+        rce, oute = verif.sh([exe, efile], timeout=120, env=dict(os.environ, ASAN_OPTIONS="detect_leaks=1"))
+        elines = [l for l in oute.splitlines() if l.startswith("E ")]
+        for k, (n, v) in enumerate(ecases):
+            exp = "E %d:%d %d:%d 0 %s %s" % (n, v if n else -1, n, 0 if n else -1, chr(ord("a") + v % 26) * n, "xy")
+            got = elines[k] if k < len(elines) else "<missing> rc=%d %s" % (rce, oute[-300:])
+            stats["emplace"] = stats.get("emplace", 0) + 1
+            if got != exp:
+                found = True
+                ck.violation("RingBuffer emplace_back/emplace_front does not construct the element from its argument pack as T(args...): got '%s' expected '%s'" % (got, exp),
+                             {"case": "emplace %d %d" % (n, v), "expected": exp, "got": got, "format": "emplace <n> <v>: RingBuffer<std::vector<int>>::emplace_back(n, v), emplace_front(n), emplace_back(); RingBuffer<std::string>::emplace_back(n, char), emplace_front(\"xyz\", 2)"})
+                break
         for idx, c in enumerate(cases):
             a = impl[idx].strip() if idx < len(impl) else "<missing>"
             b = model[idx].strip() if idx < len(model) else "<missing>"
